@@ -266,6 +266,14 @@ def prop_keys(spec, ctx):
         if key in outer:
             continue
         must_raise(key, f"t[{key!r}] (too many keys)")
+        # ... and an ellipsis anywhere in an over-long key does not make it acceptable
+        extras = [doms[0][0]] + foreign_atoms[:1]
+        for x in extras:
+            full = tuple(doms[f][p] for f, p in enumerate(pos))
+            for k2 in (full + (x, ...), full + (..., x), (...,) + full + (x,), full[:1] + (...,) + full[1:] + (x,)):
+                if any(k2 == o for o in outer if isinstance(o, tuple)):
+                    continue
+                must_raise(k2, f"t[{k2!r}] (too many keys, with an ellipsis)")
     ctx.event("cls=" + spec["cls"])
     if spec["collide"]:
         ctx.event("collision_domain")
